@@ -278,6 +278,10 @@ impl World {
     pub fn hold_exit(&self, d: usize, on: bool) {
         let mut g = self.lock();
         g.daemons[d].hold_exit = on;
+        if !on {
+            // released: no longer reported as held, even before the thread has woken up
+            g.daemons[d].in_exit_window = false;
+        }
         self.cv.notify_all();
     }
 
